@@ -3,6 +3,7 @@ import Stackage.Driver.Render
 import Stackage.Driver.Cond
 import Stackage.Driver.Marshal
 import Stackage.Driver.Traverse
+import Stackage.Driver.Alias
 
 /-! Correspondence driver: case lines on stdin, `<id> M <model>` and `<id> S <spec>` lines on stdout. -/
 
@@ -16,6 +17,7 @@ def dispatch (stream payload : String) : String × String × String :=
   else if stream == "roundtrip" then runRoundtrip payload
   else if stream == "anytrees" then runAnyTrees payload
   else if stream == "paths" then runPaths payload
+  else if stream == "alias" then runAlias payload
   else ("NOSTREAM", "NOSTREAM", "")
 
 partial def loop (h : IO.FS.Stream) (out : IO.FS.Stream) : IO Unit := do
